@@ -144,10 +144,12 @@ def closed_port():
 
 # ----------------------------------------------------------------------------- proxy under test
 @contextlib.contextmanager
-def running_proxy(mode, workers=1, extra=(), **opts):
+def running_proxy(mode, workers=1, extra=(), acceptors=None, **opts):
     """mode: 'threaded' | 'local' | 'remote'"""
     import proxy
-    args = ['--hostname', HOST, '--port', '0', '--num-acceptors', str(workers if mode != 'remote' else 1),
+    if acceptors is None:
+        acceptors = workers if mode != 'remote' else 1
+    args = ['--hostname', HOST, '--port', '0', '--num-acceptors', str(acceptors),
             '--log-level', 'CRITICAL', '--timeout', '5']
     if mode == 'threaded':
         args += ['--threaded']
@@ -431,16 +433,24 @@ def live_reverse_plugin(oport):
     return _REV
 
 
-def _c17_run_mode(rng, origin, corpus, mode, w, concurrent):
+def _c17_run_mode(rng, origin, corpus, mode, w, concurrent, acceptors=None, extra=(), tcp_port=None):
     """all conversations of the corpus through one proxy instance; returns {name: transcript}"""
-    with running_proxy(mode, workers=w, extra=('--enable-web-server', '--enable-reverse-proxy'),
+    with running_proxy(mode, workers=w, acceptors=acceptors, extra=('--enable-web-server', '--enable-reverse-proxy') + tuple(extra),
                        plugins=[live_reverse_plugin(origin.port)]) as p:
-        pport = p.flags.port
+        pport = tcp_port or p.flags.port
         time.sleep(0.5)
         # let freshly forked workers settle: one throw-away request per worker
-        for k in range(2 * w):
-            with contextlib.suppress(OSError):
-                canary_request(pport, origin.port, 1000 + k, timeout=8.0)
+        dropped = []
+        for k in range(2 * max(w, acceptors or 1)):
+            try:
+                ok, ending, dt, got = canary_request(pport, origin.port, 1000 + k, timeout=8.0)
+                if not ok and ending in ('close', 'reset') and not got:
+                    dropped.append(k)          # accepted, then closed without a byte: the process that accepted it died
+            except OSError:
+                pass
+        if dropped:
+            raise RuntimeError('connections #%s made right after start-up were accepted and dropped without a reply (%s, %s acceptors, %s workers)'
+                               % (dropped, mode, acceptors if acceptors is not None else 'default', w))
         with origin.lock:
             origin.records.clear()
         transcripts = {}
@@ -481,6 +491,95 @@ def _c17_diff(a, b):
             keys = [k for k in set(x or {}) | set(y or {}) if (x or {}).get(k) != (y or {}).get(k)]
             short = lambda d: {k: ((d or {}).get(k)[:120] if isinstance((d or {}).get(k), bytes) else (d or {}).get(k)) for k in keys}
             return name, keys, short(x), short(y)
+    return None
+
+
+def _c17_extras(rng, origin, corpus, reference, concurrent, attempts, res):
+    """configurations where only the remote hand-off differs: more acceptors than workers, a unix-socket listener plus a
+    TCP port, a TLS listener whose handshake fails"""
+    import tempfile, subprocess, shutil, ssl
+    # (1) more acceptors than workers (every acceptor must be able to dispatch its first connection)
+    for (acc, w) in ((4, 2), (2, 1)):
+        d = None
+        for a in range(attempts):
+            try:
+                t = _c17_run_mode(rng, origin, corpus, 'remote', w, concurrent, acceptors=acc)
+            except RuntimeError as e:
+                return 'remote executors with %d acceptors / %d workers: %s' % (acc, w, e)
+            res['runs'] += 1
+            d = _c17_diff(reference, t)
+            if d is None:
+                break
+            res['retries'] += 1
+        if d is not None:
+            return 'remote executors with %d acceptors / %d workers: conversation %r differs from threaded/1 in %s: %r vs %r' % (acc, w, d[0], d[1], d[2], d[3])
+        res['modes'].append('remote/%dacc/%dw' % (acc, w))
+    tmp = tempfile.mkdtemp(prefix='verif-c17-')
+    try:
+        # (2) unix-socket listener AND a TCP port: TCP clients must be served in every mode
+        for mode in ('threaded', 'local', 'remote'):
+            port = closed_port()
+            d = None
+            for a in range(attempts):
+                try:
+                    t = _c17_run_mode(rng, origin, corpus, mode, 2, concurrent,
+                                      extra=('--unix-socket-path', os.path.join(tmp, 'p-%s-%d.sock' % (mode, a)), '--ports', str(port)), tcp_port=port)
+                except Exception as e:
+                    return 'unix socket + TCP port, %s mode: the proxy could not be started / driven: %r' % (mode, e)
+                res['runs'] += 1
+                d = _c17_diff(reference, t)
+                if d is None:
+                    break
+                res['retries'] += 1
+                port = closed_port()
+            if d is not None:
+                return 'unix-socket listener + TCP port, %s mode: conversation %r differs from threaded/1 in %s: %r vs %r' % (mode, d[0], d[1], d[2], d[3])
+            res['modes'].append('%s/unix+port' % mode)
+        # (3) TLS listener: a client that talks plain HTTP fails the handshake in initialize(); it must be disconnected in every mode
+        key, cert = os.path.join(tmp, 'k.pem'), os.path.join(tmp, 'c.pem')
+        rc = subprocess.run(['openssl', 'req', '-x509', '-newkey', 'rsa:2048', '-nodes', '-keyout', key, '-out', cert, '-days', '1',
+                             '-subj', '/CN=localhost'], stdout=subprocess.DEVNULL, stderr=subprocess.DEVNULL, timeout=60).returncode
+        if rc != 0:
+            res.setdefault('notes', []).append('openssl could not create a certificate: TLS handshake-failure run skipped')
+            return None
+        outcomes = {}
+        for mode in ('threaded', 'local', 'remote'):
+            with running_proxy(mode, workers=2, extra=('--key-file', key, '--cert-file', cert)) as p:
+                time.sleep(0.8)
+                per = []
+                for k in range(4):
+                    try:
+                        got, ending = client_exchange(p.flags.port, [b'GET http://%s:%d/canary/1 HTTP/1.1\r\nHost: x\r\n\r\n' % (HOST.encode(), origin.port)], read_timeout=6)
+                    except OSError as e:
+                        got, ending = b'', 'reset'
+                    per.append('disconnected' if ending in ('close', 'reset') else ending)
+                # and a real TLS client still works afterwards
+                ctx = ssl.create_default_context(); ctx.check_hostname = False; ctx.verify_mode = ssl.CERT_NONE
+                try:
+                    raw = socket.create_connection((HOST, p.flags.port), timeout=6)
+                    tls = ctx.wrap_socket(raw, server_hostname='localhost')
+                    tls.sendall(b'GET http://%s:%d/canary/5 HTTP/1.1\r\nHost: x\r\n\r\n' % (HOST.encode(), origin.port))
+                    buf = b''
+                    tls.settimeout(6)
+                    while not buf.endswith(b'canary-5'):
+                        d2 = tls.recv(65536)
+                        if not d2:
+                            break
+                        buf += d2
+                    tls.close()
+                    per.append('tls-ok' if buf.endswith(b'canary-5') else 'tls-bad:%r' % buf[:40])
+                except (OSError, ssl.SSLError) as e:
+                    per.append('tls-error:%s' % type(e).__name__)
+                outcomes[mode] = per
+            res['runs'] += 1
+        res['tls_handshake_failure'] = outcomes
+        if not (outcomes['threaded'] == outcomes['local'] == outcomes['remote']):
+            return 'TLS listener, clients failing the handshake: modes differ: %r' % (outcomes,)
+        if any(x != 'disconnected' for x in outcomes['remote'][:4]):
+            return 'TLS listener: a client whose handshake failed is not disconnected: %r' % (outcomes,)
+        res['modes'].append('tls-handshake-failure x3')
+    finally:
+        shutil.rmtree(tmp, ignore_errors=True)
     return None
 
 
@@ -525,6 +624,10 @@ def c17_live(rng, workers=(1, 2, 4), concurrent=3, attempts=3):
                         d[0], mode, w, d[1], attempts, d[2], d[3])
                     return res
                 res['modes'].append('%s/%d' % (mode, w))
+        extra_failure = _c17_extras(rng, origin, corpus, reference, concurrent, attempts, res)
+        if extra_failure:
+            res['failure'] = extra_failure
+            return res
         res['reference'] = {k: dict(client_len=len(v['client_received']), ending=v['ending'],
                                     upstream_len=len(v.get('upstream_received', b'')), upstream_events=v.get('upstream_events'))
                             for k, v in reference.items()}
